@@ -11,7 +11,9 @@ RULE = ("a generated schema document (either draft), 6 instances, and a decorati
         "insertion of a non-asserting keyword (title, description, $comment, default, examples, deprecated, readOnly, writeOnly, "
         "format, contentEncoding, contentMediaType, contentSchema, an unreferenced $defs/definitions entry) with a well-typed value, or "
         "of an unknown keyword with any JSON value, incl. names that differ from a standard keyword only in letter case (~4%: class of "
-        "known finding D4). Observed on the real package directly: verdict vector of decorated == undecorated, and Unmarshal accepts. "
+        "known finding D4); 3 %: a 2020-12 root that only refers to a Loader document declaring draft-07 / 2020-12 / nothing, which holds "
+        "unevaluated* over overlapping anyOf / oneOf branches, decorations (incl. unreferenced definitions that mention unevaluated*) on the root only; "
+        "6 %: dynamic-scope topologies, half of them with most resources entered by pointer at an interior bare $ref. Observed on the real package directly: verdict vector of decorated == undecorated, and Unmarshal accepts. "
         "Non-trivial: >= 2 keywords; distinct = operation text")
 ASSUMPTIONS = ["decorations introduce no $id / anchors (they would legitimately change resolution)"]
 
@@ -227,6 +229,48 @@ def tree_case(rng):
     return {"op": "decorate", "args": args, "meta": {"kw": 6, "folded": False, "tree": True, "vd": bool(args.get("validateDefaults"))}}
 
 
+def remote_draft_case(rng, tier):
+    """A 2020-12 root that is nothing but a reference to a Loader document which declares ANOTHER draft (draft-07, mostly), its own
+    draft again, or none: the package evaluates every loaded document under the draft of the root, so the loaded document's
+    annotation consumers (unevaluated*) and producers (anyOf / oneOf with overlapping branches, in-place applicators) are live. The root
+    document itself uses no annotation consumer; the decorations — above all unreferenced $defs / definitions entries and
+    contentSchemas that DO mention unevaluated* — are added to the root document only and must not change a verdict."""
+    from . import c07
+    kind = "obj" if rng.random() < 0.6 else "arr"
+    kw = "unevaluatedProperties" if kind == "obj" else "unevaluatedItems"
+    defs = []
+    r = rng.random()
+    if r < 0.5:
+        body = Obj([(rng.choice(["anyOf", "anyOf", "oneOf"]), [c07.inplace(rng, rng.choice([0, 0, 1]), kind, defs) for _ in range(rng.randint(2, 3))])])
+    elif r < 0.65:
+        body = Obj([("allOf", [Obj([("anyOf", [c07.inplace(rng, 0, kind, defs) for _ in range(rng.randint(2, 3))])]), c07.inplace(rng, 1, kind, defs)])])
+    else:
+        body = c07.inplace(rng, rng.choice([1, 2, 3]), kind, defs)
+        if not isinstance(body, Obj):
+            body = Obj([("allOf", [body])])
+    remote = Obj(list(body.kvs))
+    if remote.get(kw) is None:
+        remote.set(kw, rng.choice([False, False, False, Obj([("type", "string")]), Obj([("const", "a")])]))
+    if defs:
+        remote.set("$defs", Obj(defs))
+    declared = rng.choice(gs.D7_URIS + gs.D7_URIS + [gs.D2020_URI, None])
+    if declared:
+        remote.kvs.insert(0, ("$schema", declared))
+    uri = "http://x.test/u/legacy.json"
+    top = Obj([("$ref", rng.choice([uri, "legacy.json"]))]) if rng.random() < 0.7 else Obj([("allOf", [Obj([("$ref", uri)])])])
+    root = Obj(([("$schema", gs.D2020_URI)] if rng.random() < 0.5 else []) + top.kvs)
+    doc2, folded = decorate(rng, root, "2020")
+    if rng.random() < 0.6:
+        u = rng.choice([Obj([("unevaluatedProperties", False)]), Obj([("unevaluatedItems", False)]), Obj([("type", "object"), ("unevaluatedProperties", Obj([("type", "string")]))]),
+                        Obj([("items", Obj([("unevaluatedItems", True)]))]), Obj([("allOf", [Obj([("unevaluatedItems", Obj())])])])])
+        k = rng.choice(["$defs", "$defs", "definitions", "contentSchema"])
+        if doc2.get(k) is None:
+            doc2.set(k, u if k == "contentSchema" else Obj([("unusedU", u)]))
+    args = {"schema": root, "schema2": doc2, "docs": [[uri, remote]], "base": "http://x.test/u/root.json", "loader": True,
+            "insts": c07._insts(rng, kind)}
+    return {"op": "decorate", "args": args, "meta": {"kw": gs.count_keywords(remote) + 1, "folded": folded, "remote_draft": declared or "none"}}
+
+
 def gen(rng, tier, n):
     from . import c07
     ops = []
@@ -260,12 +304,16 @@ def gen(rng, tier, n):
                         doc2.get("$defs").set("unusedU", u)
             ops.append({"op": "decorate", "args": args, "meta": {"kw": gs.count_keywords(doc), "folded": folded, "c07": True}})
             continue
-        if draft == "2020" and rng.random() < 0.06:
-            # a decoration next to a bare $ref hop of a dynamic-scope topology must not change which resources are in scope
+        if draft == "2020" and rng.random() < 0.04:
+            ops.append(remote_draft_case(rng, tier))
+            continue
+        if draft == "2020" and rng.random() < 0.09:
+            # a decoration next to a bare $ref hop of a dynamic-scope topology must not change which resources are in scope; half of the
+            # topologies with most resources entered by pointer at an interior, bare hop (the resource is in scope through that hop only)
             from . import c06
-            ot = c06.topo(rng)
+            ot = c06.topo(rng) if rng.random() < 0.5 else c06.topo(rng, mid_p=0.7, bare_p=0.7)
             doc = ot["args"]["schema"]
-            insts = rng.sample(ot["args"]["insts"], min(8, len(ot["args"]["insts"])))
+            insts = rng.sample(ot["args"]["insts"], min(10, len(ot["args"]["insts"])))
             args = {"schema": doc, "base": ot["args"]["base"], "insts": insts}
             pool = None
             if ot["args"]["docs"]:
